@@ -38,9 +38,9 @@ theorem Sptenmat.den_eq_get [Add α] [Zero α] (M : Sptenmat α) (i : List Nat) 
 
 /-! ### `tenmat.to_tensor()` of any well-formed `tenmat` -/
 
-theorem numel_pair (a b : Nat) : numel [a, b] = a * b := by simp [numel]
+theorem numel_pair_c01 (a b : Nat) : numel [a, b] = a * b := by simp [numel]
 
-theorem sub2ind_pair (R C a b : Nat) : sub2ind [R, C] [a, b] = a + R * b := by
+theorem sub2ind_pair_c01 (R C a b : Nat) : sub2ind [R, C] [a, b] = a + R * b := by
   simp [sub2ind]
 
 theorem Tenmat.toTensor_eq [Zero α] (M : Tenmat α) (hM : M.WF) :
@@ -51,7 +51,7 @@ theorem Tenmat.toTensor_eq [Zero α] (M : Tenmat α) (hM : M.WF) :
   have hDW : (⟨gather M.tshape (M.rdims ++ M.cdims), M.data.data⟩ : Dense α).WF := by
     have := hM.data
     unfold Dense.WF at *
-    rw [this, hM.mshape, gather_append, numel_append, numel_pair]
+    rw [this, hM.mshape, gather_append, numel_append, numel_pair_c01]
   unfold Tenmat.toTensor
   simp only
   split
@@ -89,7 +89,7 @@ theorem tenmat_toTensor_spec [Zero α] (M : Tenmat α) (hM : M.WF) :
   refine ⟨hs, Dense.transpose_WF_c01 _ _, ?_⟩
   intro i hi
   rw [Dense.transpose_get_c01 _ _ _ (by rw [← Dense.transpose_shape_c01, hs]; exact hi), invPerm_invPerm hp]
-  simp only [Dense.get, Tenmat.get, matSub, hM.mshape, sub2ind_pair, gather_append]
+  simp only [Dense.get, Tenmat.get, matSub, hM.mshape, sub2ind_pair_c01, gather_append]
   rw [sub2ind_append _ _ _ _ (by simp)]
 
 /-- what `to_tenmat` builds is well-formed. -/
@@ -101,16 +101,16 @@ theorem tenmatOf_wf [Zero α] (T : Dense α) (r c : List Nat)
 
 /-! ### `to_tenmat` with every argument convention -/
 
-theorem reject_eq (e : Reject) : e = .reject := by cases e; rfl
+theorem reject_eq_c01 (e : Reject) : e = .reject := by cases e; rfl
 
 /-- the range test of `to_tenmat` on one argument. -/
-def inR (n : Nat) (l : Option (List Nat)) : Bool :=
+def inRangeOpt (n : Nat) (l : Option (List Nat)) : Bool :=
   match l with | none => true | some l => l.all (· < n)
 
 theorem toTenmat_unfold [Zero α] (T : Dense α) (rd cd : Option (List Nat)) (cyc : Option Cyclic) :
     T.toTenmat rd cd cyc =
       if rd.isNone && cd.isNone then .error .reject
-      else if !inR T.shape.length rd || !inR T.shape.length cd then .error .reject
+      else if !inRangeOpt T.shape.length rd || !inRangeOpt T.shape.length cd then .error .reject
       else
         match gatherWrapDims T.shape.length rd cd cyc with
         | .error e => .error e
@@ -124,7 +124,7 @@ theorem toTenmat_unfold [Zero α] (T : Dense α) (rd cd : Option (List Nat)) (cy
 
 theorem splitValid_iff (n : Nat) (rd cd : Option (List Nat)) (cyc : Option Cyclic) :
     splitValid n rd cd cyc = true ↔
-      inR n rd = true ∧ inR n cd = true ∧
+      inRangeOpt n rd = true ∧ inRangeOpt n cd = true ∧
         ∃ r c, gatherWrapDims n rd cd cyc = .ok (r, c) ∧ isPermOf (r ++ c) n = true := by
   unfold splitValid
   simp only [Bool.and_eq_true]
@@ -150,7 +150,7 @@ theorem toTenmat_general [Zero α] (T : Dense α) (hT : T.WF) (rd cd : Option (L
         (T.transpose (r ++ c)).data⟩⟩ := by
   rw [toTenmat_unfold]
   cases hA : (rd.isNone && cd.isNone)
-  · cases hB : (!inR T.shape.length rd || !inR T.shape.length cd)
+  · cases hB : (!inRangeOpt T.shape.length rd || !inRangeOpt T.shape.length cd)
     · cases hg : gatherWrapDims T.shape.length rd cd cyc with
       | error e => left; simp only [Bool.false_eq_true, if_false]
       | ok rc =>
